@@ -15,7 +15,7 @@ from __future__ import annotations
 import random
 from fractions import Fraction as F
 
-from .mdl import add, const, mkfunc, mkvar, mul, q, var
+from .mdl import add, const, mkfunc, mkvar, mul, q, var  # noqa: F401
 
 DEFAULT = {
     "T": [1, 2, 3],
@@ -39,6 +39,8 @@ DEFAULT = {
     "p_nobind": 0.1,       # drop the budget constraint
     "p_dense_constraint": 0.3,
     "p_infeasible_last": 0.0,
+    "p_r_only_filter": 0.25,   # r enters no function but the filter (and transitions)
+    "p_unused_choice": 0.15,   # b enters no function at all / only a constraint
     "betas": [F(1, 2), F(3, 4), F(1), F(0), F(1, 4)],
     "inexact": False,
     "shuffle": True,
@@ -206,15 +208,24 @@ def _rand_model_once(rng, P):  # noqa: C901, PLR0912, PLR0915
         terms.append(mul(ci(-2, 2), mul(var("d"), var("w"))))
         uargs.append("d")
     disc = [v for v in vars_ if v["kind"] == "disc"]
-    if disc:
+    if disc:  # noqa: SIM102
         # one table over all discrete variables: asymmetric, separates every axis
+        drop = set()
+        if has_r and has("p_r_only_filter"):
+            drop.add("r")
+            feat["r_only_filter"] = True
+        if has_b and has("p_unused_choice"):
+            drop.add("b")
+            feat["b_not_in_utility"] = True
+        disc = [v for v in disc if v["name"] not in drop]
         names = [v["name"] for v in disc]
         if P["inexact"]:
             tab = _tab(rng, [v["n"] for v in disc], fn=lambda idx: F(rng.randint(-9, 9), 3))
         else:
             tab = _tab(rng, [v["n"] for v in disc], -4, 4)
-        terms.append(["tab", names, tab])
-        uargs += names
+        if names:
+            terms.append(["tab", names, tab])
+            uargs += names
     if T > 1 and has("p_period_util"):
         terms.append(mul(ci(-2, 2), var("_period")))
         uargs.append("_period")
